@@ -1,5 +1,6 @@
 """Unit driver: one function of the repository against its sidecar contract."""
 import ast
+import re
 import time
 import z3
 
@@ -150,6 +151,7 @@ class Engine(HeapMixin, ExprMixin, AccessMixin, CallMixin, StmtMixin):
   def _oblige1(self, st, name, goal, node, desc):
     sb = simp_bool(goal)
     ob = Obligation(self.unit, name, desc, list(st.pc), goal, getattr(node, 'lineno', None), list(st.path))
+    ob.choices = list(st.choices)
     # distinguish several occurrences of the same obligation on different paths
     n = self._ob_names.get(name, 0)
     self._ob_names[name] = n + 1
@@ -279,6 +281,9 @@ class Engine(HeapMixin, ExprMixin, AccessMixin, CallMixin, StmtMixin):
         self.check_frame(s1, entry, modkeys, 'frame[%s]' % name, fnode)
         if not spec.allocates and s1.alloc is not entry['$alloc']:
           self.oblige(s1, 'no-alloc[%s]' % name, s1.alloc == entry['$alloc'], fnode, 'the function allocates nothing (allocates=False)')
+        elif spec.allocates and spec.allocates != 'any' and s1.alloc is not entry['$alloc']:
+          self.oblige(s1, 'no-final-alloc[%s]' % name, self.no_finals_between(s1, entry['$alloc'], s1.alloc), fnode,
+                      "no instance of a 'final' class is created (allocates=True)")
       elif kind == 'exc':
         exc = val
         allowed = None
@@ -316,7 +321,14 @@ class Engine(HeapMixin, ExprMixin, AccessMixin, CallMixin, StmtMixin):
     return None
 
   def use_lemma(self, st, cx, text, node):
-    """'lemma_name(args)' : check the lemma's requires here, then assume its ensures."""
+    """'lemma(args)': check the lemma's requires here, then assume its ensures.
+    'k: lemma(args)': assume the universally closed contract  forall k. requires => ensures
+    (the lemma itself is a unit verified by this engine)."""
+    binders = []
+    m = re.match(r'^\s*([A-Za-z_]\w*(?:\s*,\s*[A-Za-z_]\w*)*)\s*:\s*(.*)$', text, re.S)
+    if m and '(' not in m.group(1):
+      binders = [b.strip() for b in m.group(1).split(',')]
+      text = m.group(2)
     call = self.parse_spec(text)
     if not (isinstance(call, ast.Call) and isinstance(call.func, ast.Name)):
       raise Unsupported('bad lemma use %r' % text)
@@ -325,9 +337,13 @@ class Engine(HeapMixin, ExprMixin, AccessMixin, CallMixin, StmtMixin):
     if lspec is None or not lspec.ghost_fn:
       raise Unsupported('unknown lemma %s' % lname)
     fnode = ast.parse(lspec.ghost_fn).body[0]
+    qfid = fresh_name('lq')
+    qvars = [z3.Int(fresh_name(b)) for b in binders]
+    st.frames[qfid] = dict((b, V(INT, x)) for b, x in zip(binders, qvars))
+    acx = Ctx(cx.mod, cx.cls, [qfid] + list(cx.chain), cx.spec, cx.qual)
     self.spec_depth += 1
     try:
-      args = [self.ev1(a, st, cx) for a in call.args]
+      args = [self.ev1(a, st, acx) for a in call.args]
     finally:
       self.spec_depth -= 1
     names = [a.arg for a in fnode.args.args]
@@ -339,13 +355,19 @@ class Engine(HeapMixin, ExprMixin, AccessMixin, CallMixin, StmtMixin):
     snap['$alloc'] = st.alloc
     self.old_stack.append((snap, dict(st.frames[fid])))
     try:
-      for n, r in enumerate(lspec.requires):
-        self.oblige(st, 'lemma-pre[%s#%d]' % (lname, n), self.spec_bool(st, lcx, r), node, 'lemma %s requires %r' % (lname, r))
-      for e in lspec.ensures:
-        st.assume(self.spec_bool(st, lcx, e))
+      if not binders:
+        for n, r in enumerate(lspec.requires):
+          self.oblige(st, 'lemma-pre[%s#%d]' % (lname, n), self.spec_bool(st, lcx, r), node, 'lemma %s requires %r' % (lname, r))
+        for e in lspec.ensures:
+          st.assume(self.spec_bool(st, lcx, e))
+      else:
+        reqs = [self.spec_bool(st, lcx, r) for r in lspec.requires]
+        enss = [self.spec_bool(st, lcx, e) for e in lspec.ensures]
+        st.assume(z3.ForAll(qvars, z3.Implies(z3.And(*reqs) if reqs else z3.BoolVal(True), z3.And(*enss))))
     finally:
       self.old_stack.pop()
       st.frames.pop(fid, None)
+      st.frames.pop(qfid, None)
 
   # ------------------------------------------------------------------ yields
   def at_yield(self, st, cx, node, ex):
